@@ -90,7 +90,8 @@ pub fn menu() -> Vec<String> {
         "v = 'c'", "v = b'c'", "v = b\"bs\"", "v = 0", "v = 1", "v = -1", "v = 255", "v = 256", "v = 1234567890123456789012345678901234567890",
         "v = -1234567890123456789012345678901234567890", "v = 1.5", "v = 1e400", "v = -1.5e-400", "v = 5u8", "v = 5f32",
         "v = a::b", "v = ::a", "v = a::<b>", "v = 1 + 2", "v = [1, 2]", "v = [a, 1]", "v = [-1]", "v = 0..5", "v = ..", "v = |x| x", "v = (1, 2)", "v = -x", "v = !true",
-        "v = {}", "v = unsafe { 1 }", "v = r#type", "v = m!(x)", "v = &x", "v = x as u8", "v = \"😬\"", "v = \"\\u{0}\"", "v = pub", "v = \"pub(crate)\"",
+        "v = {}", "v = unsafe { 1 }", "v = r#type", "v = m!(x)", "v = &x", "v = x as u8", "v = \"😬\"", "v = \"\\u{0}\"", "v = \"x²\"", "v = \"half½\"", "v = \"item①\"", "v = \"\\u{345}x\"", "v = \"é\"", "v = \"a b\"", "v = \"r#x\"", "v = \"'a\"", "v = \"_\"", "v = \"1x\"",
+        "v = \"x-y\"", "v = \"x.y\"", "v = \"𝒳\"", "v = \"a\\u{200d}b\"", "v = \"fn\"", "v = \"Self\"", "v = \"$x\"", "v = \"#\"", "v = \"a::\"", "v = \"::\"", "v = \"<\"", "v = \"-\"", "v = \"- 1\"", "v = \"--1\"", "v = pub", "v = \"pub(crate)\"",
     ]
     .iter()
     .map(|s| s.to_string())
